@@ -458,33 +458,25 @@ package ttlv
 // contracts so that each method is checked on its own instead of being inlined into every caller.
 
 //@ func (*jsonReader).getMap
-//@   requires j != nil
 //@   pure
 
 //@ func (*jsonReader).getValue
-//@   requires j != nil
 //@   pure
 
 //@ func (*jsonReader).Tag
-//@   requires j != nil
 //@   pure
 
 //@ func (*jsonReader).Type
-//@   requires j != nil
 //@   pure
 
 //@ func (*jsonReader).assertType
-//@   requires j != nil
 //@   pure
 
 //@ func (*xmlReader).Tag
-//@   requires dec != nil
 //@   pure
 
 //@ func (*xmlReader).Type
-//@   requires dec != nil
 //@   pure
 
 //@ func (*xmlReader).assertType
-//@   requires dec != nil
 //@   pure
